@@ -106,6 +106,10 @@ pub fn pool(st: &[UMsg]) -> Vec<PoolEntry> {
         mk("N_not_app1", 1, true, true, &|f| f.apid = lit("APP1")),
         mk("N_foo", 1, true, false, &|f| f.payload = foo()),
         mk("N_not_lc1", 1, true, true, &|f| f.lifecycles = Some(vec![1])),
+        mk("N_app2_lc1", 1, true, false, &|f| {
+            f.apid = lit("APP2");
+            f.lifecycles = Some(vec![1])
+        }),
         mk("N_all_disabled", 1, false, false, &|_| {}),
         mk("E_ecu1", 3, true, false, &|f| f.ecu = lit("ECU1")),
         mk("E_app2", 3, true, false, &|f| f.apid = lit("APP2")),
@@ -495,6 +499,116 @@ fn run_case(ctx: &mut Ctx, fx: &Fixture, family: &str, set: &[&PoolEntry]) {
     });
 }
 
+/// The export plugin configured with "lifecyclesToKeep": the plugin adds an internal negative filter and rewrites it
+/// whenever it meets a lifecycle to keep. Real lifecycles (one per ECU x lifecycle number of the stream, published
+/// through an evmap as the lifecycle stage does) x every non-empty subset of them to keep (quick: 6 subsets) x every
+/// filter set of up to 2 pool filters: the file holds exactly the messages the statement keeps among the messages
+/// of the kept lifecycles.
+fn export_keep_family(ctx: &mut Ctx, fx: &Fixture) {
+    use adlt::lifecycle::{Lifecycle, LifecycleId, LifecycleItem};
+    use adlt::plugins::plugin::Plugin;
+    let (lcs_r, mut lcs_w) = evmap::Options::default().with_hasher(nohash_hasher::BuildNoHashHasher::<LifecycleId>::default()).construct::<LifecycleId, LifecycleItem>();
+    // (ecu, lifecycle number of the stream) -> (real id, start, end)
+    let mut real: Vec<(([u8; 4], u32), LifecycleId, u64, u64)> = vec![];
+    for lc in [1u32, 2] {
+        for ecu in ["ECU1", "ECU2"] {
+            let t0 = 1_600_000_000_000_000u64 + lc as u64 * 1_000_000_000;
+            let mut probe = crate::core::dltgen::mk_msg(0, &id4(ecu), t0 + 5_000_000, 50_000, true, None, vec![]);
+            let l = Lifecycle::new(&mut probe);
+            real.push(((id4(ecu), lc), l.id(), l.start_time, l.end_time()));
+            lcs_w.insert(l.id(), l);
+        }
+    }
+    lcs_w.refresh();
+    let real_id = |ecu: &[u8; 4], lc: u32| real.iter().find(|r| r.0 == (*ecu, lc)).map(|r| r.1).expect("lifecycle of the stream");
+    let msgs: Vec<DltMessage> = fx.msgs.iter().zip(fx.st.iter()).map(|(m, u)| { let mut m = m.clone(); m.lifecycle = real_id(&u.ecu, u.lc); m }).collect();
+    let n = msgs.len();
+    let subsets: Vec<u32> = if ctx.tier == Tier::Thorough { (1..16).collect() } else { vec![0b0001, 0b0011, 0b0100, 0b0101, 0b1010, 0b1111] };
+    let kmax = export_max_set();
+    ctx.begin_family("export_lifecycles_to_keep", &format!("{} subsets of the 4 lifecycles to keep x filter sets of <= {kmax} of {} pool filters", subsets.len(), fx.pool.len()));
+    let dir = if std::path::Path::new("/dev/shm").is_dir() { "/dev/shm" } else { "/tmp" };
+    let path = format!("{dir}/mc-c12-keep-{}.dlt", std::process::id());
+    let mut done = true;
+    'o: for keep in &subsets {
+        let kept: Vec<bool> = (0..4).map(|b| keep & (1 << b) != 0).collect();
+        let to_keep: Vec<Value> = real.iter().enumerate().filter(|(i, _)| kept[*i]).map(|(_, r)| json!({"ecu": std::str::from_utf8(&r.0 .0).unwrap(), "startTime": r.2, "endTime": r.3})).collect();
+        for k in 0..=kmax {
+            let fin = enumr::sequences(k, fx.pool.len(), |ix| {
+                if !ctx.mine() {
+                    return true;
+                }
+                let set: Vec<&PoolEntry> = ix.iter().map(|i| &fx.pool[*i]).collect();
+                // the user's filters, lifecycle numbers replaced by the real ids of both ECUs
+                let filters: Vec<Value> = set
+                    .iter()
+                    .map(|p| {
+                        let mut j: Value = serde_json::from_str(&p.json).unwrap();
+                        if let Some(l) = &p.af.lifecycles {
+                            j["lifecycles"] = json!(l.iter().flat_map(|lc| ["ECU1", "ECU2"].iter().map(|e| real_id(&id4(e), *lc)).collect::<Vec<_>>()).collect::<Vec<_>>());
+                        }
+                        j
+                    })
+                    .collect();
+                let cj = || {
+                    let mut c = case_json("export_lifecycles_to_keep", &set);
+                    c["keep"] = json!(keep);
+                    c
+                };
+                let _ = std::fs::remove_file(&path);
+                let cfg = json!({"name": "Export", "exportFileName": path, "filters": filters, "lifecyclesToKeep": to_keep});
+                let r = catch(|| -> Result<(), String> {
+                    let mut plugin = adlt::plugins::export::ExportPlugin::from_json(cfg.as_object().unwrap()).map_err(|e| e.to_string())?;
+                    plugin.set_lifecycle_read_handle(&lcs_r);
+                    for m in &msgs {
+                        let mut m = m.clone();
+                        plugin.process_msg(&mut m);
+                    }
+                    plugin.sync_all();
+                    Ok(())
+                });
+                ctx.transitions(n as u64);
+                match r {
+                    Err(p) => ctx.violation("panic", &p.loc, cj, format!("ExportPlugin with lifecyclesToKeep: {}", p.msg)),
+                    Ok(Err(e)) => ctx.violation("export_construct", "lifecyclesToKeep", cj, e),
+                    Ok(Ok(())) => {
+                        let bytes = std::fs::read(&path).unwrap_or_default();
+                        let mut keys: Vec<(u64, u32, u8, Vec<u8>)> = adlt::utils::DltMessageIterator::new(0, &bytes[..])
+                            .filter(|m| !(m.apid().map(|a| a.as_buf() == b"VsDl").unwrap_or(false) && m.ctid().map(|c| c.as_buf() == b"Info").unwrap_or(false)))
+                            .map(|m| (m.reception_time_us, m.timestamp_dms, m.standard_header.mcnt, m.payload.clone()))
+                            .collect();
+                        keys.sort();
+                        let in_kept = |i: usize| real.iter().position(|r| r.0 == (fx.st[i].ecu, fx.st[i].lc)).map(|p| kept[p]).unwrap_or(false);
+                        let stmt: Vec<bool> = (0..n).map(|i| spec_keep(&set, i, true, false, false)).collect();
+                        let mut want: Vec<(u64, u32, u8, Vec<u8>)> = (0..n).filter(|i| stmt[*i] && in_kept(*i)).map(|i| { let m = &msgs[i]; (m.reception_time_us, m.timestamp_dms, m.standard_header.mcnt, m.payload.clone()) }).collect();
+                        want.sort();
+                        let vetoed_in_kept = (0..n).filter(|i| in_kept(*i) && !stmt[*i]).count();
+                        if vetoed_in_kept > 0 && !want.is_empty() {
+                            ctx.landmark("keep_lifecycles_and_filters_both_decide");
+                        }
+                        if set.iter().any(|p| p.af.enabled && p.af.kind == 1 && p.af.lifecycles.is_some()) {
+                            ctx.landmark("keep_lifecycles_with_negative_lifecycle_filter");
+                        }
+                        ctx.outcome(fnv_str(&format!("{keep}:{:?}", want.iter().map(|w| w.1).collect::<Vec<_>>())));
+                        ctx.eval(!want.is_empty() && want.len() < n);
+                        ctx.sample(cj);
+                        if keys != want {
+                            let extra = keys.iter().filter(|k| !want.contains(k)).count();
+                            ctx.violation("export_selection", if extra > 0 { "lifecycles_to_keep:exported_other" } else { "lifecycles_to_keep:exported_too_few" }, cj, format!("lifecyclesToKeep {:?}: the export plugin wrote {} messages ({} of them not to be kept), the statement keeps {} of the {} messages of the kept lifecycles", to_keep, keys.len(), extra, want.len(), (0..n).filter(|i| in_kept(*i)).count()));
+                        }
+                    }
+                }
+                !(ctx.sum.evaluations % 256 == 0 && ctx.out_of_time())
+            });
+            if !fin {
+                done = false;
+                break 'o;
+            }
+        }
+    }
+    let _ = std::fs::remove_file(&path);
+    ctx.end_family(done);
+}
+
 pub struct C12;
 
 impl Prop for C12 {
@@ -502,10 +616,10 @@ impl Prop for C12 {
         Meta {
             id: "C12",
             level: "exploration",
-            rule: "all ordered tuples (superset of the multisets) of <= k filters from a pool of 19 (positive / negative / event / marker x enabled / disabled x plain / negated, overlapping ECU / APID / payload / lifecycle criteria) x a 30-message stream (2 ECUs x {no extended header, 2 APIDs} x 2 lifecycles x 2 texts + 6 repeated messages), through filter_as_streams, through match_filters on the container built by StreamContext::from, and through the remote stream path process_stream_new_msgs (called like the server loop, chunk limits 1 / 7 / unlimited); searches: the paged stream_search sessions of the C16 explorer (stream filter set x search filter set x page size x start, following next_search_idx) on the real server handlers. Oracle from the statement (single-filter decisions from the independent C11 evaluator): selection, forwarded messages equal to the received ones, original order, passed + filtered = received and passed = number forwarded, event clause for match_filters, agreement of both implementations when no enabled event filter is present. A case is non-trivial when the statement keeps some but not all messages.".into(),
+            rule: "all ordered tuples (superset of the multisets) of <= k filters from a pool of 20 (positive / negative / event / marker x enabled / disabled x plain / negated, overlapping ECU / APID / payload / lifecycle criteria) x a 30-message stream (2 ECUs x {no extended header, 2 APIDs} x 2 lifecycles x 2 texts + 6 repeated messages), through filter_as_streams, through match_filters on the container built by StreamContext::from, and through the remote stream path process_stream_new_msgs (called like the server loop, chunk limits 1 / 7 / unlimited); searches: the paged stream_search sessions of the C16 explorer (stream filter set x search filter set x page size x start, following next_search_idx) on the real server handlers. Oracle from the statement (single-filter decisions from the independent C11 evaluator): selection, forwarded messages equal to the received ones, original order, passed + filtered = received and passed = number forwarded, event clause for match_filters, agreement of both implementations when no enabled event filter is present. A case is non-trivial when the statement keeps some but not all messages.".into(),
             assumptions: vec![
                 "filter_as_streams is the convert path: the statement's event clause ('for streams and searches') is applied to match_filters only".into(),
-                "the export plugin is driven for filter sets of up to 2 (thorough 3) filters: the file it writes (without its info messages) must hold exactly the messages the statement keeps".into(),
+                "the export plugin is driven for filter sets of up to 2 (thorough 3) filters: the file it writes (without its info messages) must hold exactly the messages the statement keeps; with 'lifecyclesToKeep' (family export_lifecycles_to_keep: 4 real lifecycles in an evmap, every subset of them to keep (quick 6), the lifecycle infos bracket exactly one lifecycle each) exactly those of them that belong to a kept lifecycle".into(),
                 "the error path of filter_as_streams (downstream send fails) is outside the statement".into(),
             ],
             budget_s: (90, 1200),
@@ -521,6 +635,8 @@ impl Prop for C12 {
                 "same_filter_twice",
                 "agreement_checked(no_enabled_event_filter)",
                 "server_search",
+                "keep_lifecycles_and_filters_both_decide",
+                "keep_lifecycles_with_negative_lifecycle_filter",
             ],
         }
     }
@@ -549,6 +665,7 @@ impl Prop for C12 {
                 return;
             }
         }
+        export_keep_family(ctx, &fx);
         // searches on the real server handlers
         crate::c16::search_family(ctx);
     }
